@@ -733,6 +733,37 @@ def rule_P1e(ck, rule="P1e"):
                         show(stride)[:200], show(extent)[:200], show(bad)[:200], tu.pl.sea), config=tu.cfg)
 
 
+def rule_stride_inv(ck, rule="INV-S"):
+    """all-fixed vectors: in every state produced by a constructor or a mutator the element stride is the
+    constructor's stride formula of that state's fixed sizes (given that it was in the operand states).
+    Without it the stride of one state and the extent of the elements written into it are unrelated."""
+    tu, rec = ck.tu, ck.rec
+    if not tu.pl.all_fixed_locator or not tu.has("w_ctor"):
+        return
+    from .rules_vector import MUTATORS, pre_facts
+    csm = tu.S("w_ctor")
+    cps = tu.meta["w_ctor"]["params"]
+    step0 = tu.obs("w_ctor", "post", "step")
+
+    def F(fn, st):
+        sub = {("arg", cps.index("f%d" % i)): tu.obs(fn, st, "fs%d" % i) for i in range(tu.pl.nfixed)}
+        return csm.interp.subst_atoms(step0, sub)
+
+    for fn in sorted(tu.meta):
+        ps = tu.meta[fn]["params"]
+        posts = [st for st in ("post", "post_w") if st in ps]
+        if not posts or not tu.has(fn) or fn == "w_ctor":
+            continue
+        op = fn[2:]
+        facts = pre_facts(tu, fn, op) if op in MUTATORS and "pre" in ps else Facts()
+        for st in ("pre", "pre_w"):
+            if st in ps:
+                facts.add(c_cmp("eq", tu.obs(fn, st, "step"), F(fn, st)))
+        for st in posts:
+            ck.eq(rule, fn, "element stride of the %s state == stride formula of its fixed sizes" % st, tu.obs(fn, st, "step"), F(fn, st), facts,
+                  key="%s:%s-stride" % (op, st))
+
+
 def _mentions(t, a):
     found = []
 
